@@ -42,9 +42,9 @@ def exhaustive_specs():
 
 def run(ctx, focus):
     rng = ctx.rng
-    n_random = ctx.scale(150, 2500) * (3 if ctx.proof_broken else 1)
-    ncuts = {'C08': ctx.scale(4, 0)}.get(focus, ctx.scale(1, 2))
-    all_cuts = focus == 'C08' and not ctx.quick
+    n_random = ctx.scale(150, 1200 if focus != 'C08' else 350) * (3 if ctx.proof_broken and ctx.quick else 1)
+    ncuts = {'C08': ctx.scale(4, 10)}.get(focus, ctx.scale(1, 2))
+    all_cuts = False
     root = common.scratch_dir('rules')
     specs = []
     corpus = os.path.join(common.VERIF, 'harness', 'corpus', 'pq')
@@ -65,8 +65,8 @@ def run(ctx, focus):
         d = common.write_ruleset(os.path.join(root, f"r{i % 50}"), spec)
         flags = spec.get('flags') or {'skip_brute': rng.random() < 0.3, 'skip_case': rng.random() < 0.3}
         try:
-            r = corr_pq.run_case(d, flags, rng, ncuts=ncuts, all_cuts=all_cuts,
-                                 max_nodes=ctx.scale(400, 1500))
+            r = corr_pq.run_case(d, flags, rng, ncuts=ncuts, all_cuts=(focus == 'C08' and not ctx.quick and src == 'exhaustive'),
+                                 max_nodes=ctx.scale(400, 1000))
         except Exception as e:  # the implementation raised: that is itself a finding for C01/C02
             violations.append({'property': focus, 'kind': 'implementation-raised', 'error': repr(e)[:300],
                                'witness': {'spec': spec, 'flags': flags}})
